@@ -36,6 +36,7 @@ import ast
 import os
 
 from .. import translate
+from . import normalize
 from ..translate import Untranslatable
 
 ADV = "fairlearn/adversarial/_adversarial_mitigation.py"
@@ -652,7 +653,7 @@ def _bool(e, atoms, where):
 def _parse(repo, rel):
     try:
         with open(os.path.join(repo, rel)) as f:
-            return ast.parse(f.read())
+            return normalize.parse(f.read())
     except (OSError, SyntaxError) as e:
         raise Untranslatable(f"{rel}: {e}")
 
